@@ -378,9 +378,15 @@ class Model:
         return f"<{c.__name__}>"
 
     # ---------------------------------------------------------------- bounded language (finite-choice grammars)
-    def language(self, t, d, memo=None, siblings=None, cap=200000):
+    def language(self, t, d, memo=None, siblings=None, cap=200000, conservative_lists=None):
         """All canonical texts of well-typed, refinement-satisfying values of type t whose depth <= d.
-        Raises NotFinite for unbounded fields."""
+        Raises NotFinite for unbounded fields. conservative_lists=True selects the reading in which an empty list
+        still needs room for one element (the reading under which a list field's minimum depth is its element's)."""
+        if conservative_lists is not None:
+            self._conservative = bool(conservative_lists)
+            if self._conservative and not hasattr(self, "_dt_hi"):
+                _, self._dt_hi = self.mindepth_table(False)
+                self._dt_hi_fn = self._dt
         if memo is None:
             memo = {}
         k = kind(t)
@@ -459,7 +465,8 @@ class Model:
         out = []
         for n in range(lo, hi + 1):
             if n == 0:
-                out.append("[]")
+                if not getattr(self, "_conservative", False) or self._dt_hi_fn(et) <= d:
+                    out.append("[]")
                 continue
             if len(elems) ** n > cap:
                 raise NotFinite("list language too large")
